@@ -79,16 +79,21 @@ class Alpha(object):
         self.rev = {}
         self.wild = {}
         self.al = norm.aliases(node) if isinstance(node, (ast.FunctionDef, ast.AsyncFunctionDef)) else {}
+        self.funcnode = node if isinstance(node, (ast.FunctionDef, ast.AsyncFunctionDef)) else None
 
     # -- public
-    def eq(self, node, pattern, al=False):
+    def eq(self, node, pattern, al=False, deep=False):
         """al=True: single-assignment path aliases (postfile = self._postfile) are
-        substituted in `node` first; write the pattern with the full paths."""
+        substituted in `node` first; write the pattern with the full paths.
+        deep=True: every single-assignment local read in `node` is replaced by its
+        defining expression first (recursively); write the pattern fully inlined."""
         if node is None:
             return False
         if isinstance(node, str):
             node = parse_pattern(node)
-        if al and self.al:
+        if deep and self.funcnode is not None:
+            node = norm.inline_defs(node, self.funcnode, depth=8)
+        elif al and self.al:
             node = norm.substitute(node, self.al)
         p = parse_pattern(pattern) if isinstance(pattern, str) else pattern
         saved = (dict(self.fwd), dict(self.rev), dict(self.wild))
@@ -100,14 +105,14 @@ class Alpha(object):
     def eq_any(self, node, patterns):
         return any(self.eq(node, p) for p in patterns)
 
-    def find(self, nodes, pattern, al=False):
+    def find(self, nodes, pattern, al=False, deep=False):
         for n in nodes:
-            if self.eq(n, pattern, al):
+            if self.eq(n, pattern, al, deep):
                 return n
         return None
 
-    def has(self, nodes, pattern, al=False):
-        return self.find(nodes, pattern, al) is not None
+    def has(self, nodes, pattern, al=False, deep=False):
+        return self.find(nodes, pattern, al, deep) is not None
 
     def fact(self, facts, pol, pattern):
         """is (pol, <text alpha-equal to pattern>) among the must-facts?"""
